@@ -200,10 +200,23 @@ def check(ctx):
 
     # ------------------------------------------------------------------ R5 repository level
     r5 = ctx.rule('R5', 'repository finders use the typelib lookups; negative GType cache cleared on every registration', floor=4)
-    for fn, callee_ in (('g_irepository_find_by_name', 'g_typelib_get_dir_entry_by_name'), ('find_by_gtype', 'g_typelib_get_dir_entry_by_gtype_name'),
-                        ('find_by_error_domain_foreach', 'g_typelib_get_dir_entry_by_error_domain')):
+    def reach(start):
+        """functions of girepository.c reachable from `start` through calls or function references (callbacks)"""
+        seen, todo = set(), [start]
+        while todo:
+            fn_ = todo.pop()
+            if fn_ in seen or fn_ not in gr.functions:
+                continue
+            seen.add(fn_)
+            for d in C.walk(gr.body(gr.functions[fn_])):
+                if d.get('kind') == 'DeclRefExpr' and d.get('referencedDecl', {}).get('kind') == 'FunctionDecl':
+                    todo.append(d['referencedDecl'].get('name'))
+        return seen
+    for fn, callee_ in (('g_irepository_find_by_name', 'g_typelib_get_dir_entry_by_name'), ('g_irepository_find_by_gtype', 'g_typelib_get_dir_entry_by_gtype_name'),
+                        ('g_irepository_find_by_error_domain', 'g_typelib_get_dir_entry_by_error_domain')):
         f = gr.func(fn)
-        r5.check(len(C.calls(gr.body(f), callee_)) == 1, '%s -> %s' % (fn, callee_), GR, gr.line(f), '%s no longer uses %s' % (fn, callee_))
+        users = [g_ for g_ in sorted(reach(fn)) if C.calls(gr.body(gr.functions[g_]), callee_)]
+        r5.check(bool(users), '%s -> %s' % (fn, callee_), GR, gr.line(f), '%s no longer reaches %s: the repository-level lookup can disagree with the typelib-level one' % (fn, callee_), detail=users)
     ri = gr.func('register_internal')
     clr = [c for c in C.calls(gr.body(ri), 'g_hash_table_remove_all') if 'unknown_gtypes' in gr.text_of(c)]
     if len(clr) != 1:
